@@ -3,6 +3,7 @@
 
 pub mod dbus;
 pub mod gv;
+pub mod matchrule;
 pub mod msg;
 pub mod names;
 pub mod prng;
